@@ -31,6 +31,9 @@ static inline cstring *cstring__lit(const char *p) { g_lit.len = 5; g_lit.id = _
   static inline T *P##N##__at(struct P##N *s, unsigned long i) { \
     __CPROVER_assert(i < s->n, "sequence element access in bounds"); \
     if (i == s->wi) return &s->wv; T fresh; __CPROVER_assume(SEQ_INV_##N(&fresh)); P##N##__cur = fresh; return &P##N##__cur; } \
+  static inline T *P##N##__back(struct P##N *s) { \
+    __CPROVER_assert(s->n > 0, "back() of a non-empty sequence"); \
+    if (s->n - 1 == s->wi) return &s->wv; T fresh; __CPROVER_assume(SEQ_INV_##N(&fresh)); P##N##__cur = fresh; return &P##N##__cur; } \
   PUSH_CAPTURE_DECL(P, N, T) \
   static inline void P##N##__push_back(struct P##N *s, T *v) { if (g_exc) return; \
     __CPROVER_assert(SEQ_INV_##N(v), "stored element satisfies the sequence's element invariant"); PUSH_CAPTURE(P, N, v) if (s->n == s->wi) s->wv = *v; s->n++; } \
